@@ -322,6 +322,21 @@ def r07_12(ctx, g):
             tests = [canon_test(t, pol) for t, pol in p.tests()]
             why = [t for t, pol in tests if not ("in self" in t or "in self.nodes" in t or ".startswith(" in t or "len(" in t)]
             if why:
+                # a "link already present" test that looks at the neighbour's id only conflates links that differ in the
+                # side at which they enter the neighbour
+                proj = None
+                for t, pol in p.tests():
+                    for c in ast.walk(t):
+                        if isinstance(c, ast.Call) and isinstance(c.func, ast.Attribute):
+                            cal = repo.resolve_call(rgn, c)
+                            if cal is not None and cal.cls is not None and cal.cls != rg.cls:
+                                ents = [x for x in ast.walk(cal.node) if isinstance(x, ast.Subscript) and isinstance(x.value, ast.Name) and isinstance(const_value(x.slice, None), int)]
+                                idx = {const_value(x.slice) for x in ents}
+                                if ents and idx == {0} and any(isinstance(x, ast.Attribute) and x.attr in ("start", "end") for x in ast.walk(cal.node)):
+                                    proj = cal
+                if proj is not None:
+                    ctx.violated("R07.12", rgn.where(lp), f"a link of the file is skipped when `{why[0][:90]}`: {proj.qualname} compares the neighbour's id only, not the side at which the link enters it, so a different link between the same two segments (a+ b+ after a+ b-) is dropped", key_of(rgn, f"link-filter-by-id:{proj.qualname}"))
+                    continue
                 raise AnalysisError("R07.12", rgn.where(lp), f"a link of the file is not added under `{why[0][:100]}`: cannot decide which links that drops")
         ctx.holds("R07.12", rgn.where(lp), f"every link whose two segments exist is added to the graph ({len(paths)} paths through the link loop)")
     ctx.require_count("R07.12", nl, 1, rg.where(), "loop adding the links of the file")
@@ -353,6 +368,9 @@ def index_build(ctx):
     c03.r03_4(ctx, run)
     c03.r03_5(ctx, run, info)
     c03.r03_6(ctx, run, info)
+    from . import c17
+
+    c17.r17_7(ctx)
 
 
 # ---------------------------------------------------------------------------------------------
@@ -463,3 +481,133 @@ def _defs_with_unpack(f):
                 if isinstance(t, ast.Name):
                     defs[t.id] = [v] if t.id not in defs or defs[t.id] == [None] else defs[t.id]
     return defs
+
+
+# ---------------------------------------------------------------------------------------------
+# path tokenisation
+# ---------------------------------------------------------------------------------------------
+
+_PRINTABLE = [chr(c) for c in range(33, 127)]
+
+
+def _class_chars(items):
+    """set of printable characters accepted by a parsed character class / single-character item list"""
+    import re._constants as sc  # noqa: PLC0415
+    import re
+
+    acc = set()
+    neg = False
+    for op, av in items:
+        op = str(op)
+        if op == "NEGATE":
+            neg = True
+        elif op == "LITERAL":
+            acc.add(chr(av))
+        elif op == "RANGE":
+            acc |= {chr(c) for c in range(av[0], av[1] + 1)}
+        elif op == "CATEGORY":
+            cat = str(av)
+            probe = {"CATEGORY_WORD": r"\w", "CATEGORY_NOT_WORD": r"\W", "CATEGORY_DIGIT": r"\d", "CATEGORY_NOT_DIGIT": r"\D", "CATEGORY_SPACE": r"\s", "CATEGORY_NOT_SPACE": r"\S"}.get(cat)
+            if probe is None:
+                return None
+            acc |= {c for c in _PRINTABLE if re.fullmatch(probe, c)}  # the meaning of a category, looked up character by character
+        else:
+            return None
+    return (set(_PRINTABLE) - acc) if neg else acc
+
+
+def _single_char_set(node):
+    """printable characters matched by a one-character regex node, or None"""
+    op, av = node
+    op = str(op)
+    if op == "LITERAL":
+        return {chr(av)}
+    if op == "NOT_LITERAL":
+        return set(_PRINTABLE) - {chr(av)}
+    if op == "IN":
+        return _class_chars(av)
+    if op == "ANY":
+        return set(_PRINTABLE)
+    if op == "CATEGORY":
+        return _class_chars([node])
+    if op == "SUBPATTERN":
+        sub = list(av[-1])
+        if len(sub) == 1:
+            return _single_char_set(sub[0])
+    if op == "BRANCH":
+        out = set()
+        for alt in av[1]:
+            alt = list(alt)
+            if len(alt) != 1:
+                return None
+            s = _single_char_set(alt[0])
+            if s is None:
+                return None
+            out |= s
+        return out
+    return None
+
+
+def path_tokenisers(ctx):
+    """R14.5: wherever a path (`>a<b>c` / `>contig:1-5`) is cut into steps, a step's name is a maximal run of characters
+    other than the two orientation signs: the separator set of a split is exactly {<, >}; the name class of a findall
+    accepts every character but those two.  Decided on the parsed regular expression, not on its text."""
+    if not _once(ctx, "path_tokenisers"):
+        return
+    import re._parser as sp
+
+    from ..core import regex_call
+
+    repo = ctx.repo
+    n = 0
+    for f in repo.all_funcs():
+        for c in walk_own(f.node):
+            rcall = regex_call(f.module, c)
+            if rcall is None:
+                continue
+            meth, pat, _ = rcall
+            if meth not in ("split", "findall", "finditer") or "<" not in pat or ">" not in pat:
+                continue
+            n += 1
+            try:
+                tree = list(sp.parse(pat))
+            except Exception as ex:  # noqa: BLE001
+                raise AnalysisError("R14.5", f.where(c), f"pattern {pat!r} does not parse: {ex}")
+            signs = {"<", ">"}
+            if meth == "split":
+                s = _single_char_set(tree[0]) if len(tree) == 1 else None
+                if s is None:
+                    raise AnalysisError("R14.5", f.where(c), f"split pattern {pat!r} is not a set of single separator characters")
+                extra = sorted(s - signs)
+                if s >= signs and not extra:
+                    ctx.holds("R14.5", f.where(c), f"the path is split at the orientation signs only ({pat!r}): a step name keeps every other character")
+                elif extra:
+                    ctx.violated("R14.5", f.where(c), f"the path is also split at {extra[:6]} ({pat!r}): node or contig names containing such a character are cut into pieces", key_of(f, f"path-split:{''.join(extra)[:20]}"))
+                else:
+                    ctx.violated("R14.5", f.where(c), f"the path is not split at both orientation signs ({pat!r})", key_of(f, f"path-split-missing:{pat}"))
+                continue
+            # findall / finditer: [sign] name+   or   sign | name+
+            name_set = None
+            if len(tree) == 2 and _single_char_set(tree[0]) == signs and str(tree[1][0]) in ("MAX_REPEAT", "MIN_REPEAT"):
+                lo, hi, sub = tree[1][1]
+                sub = list(sub)
+                if len(sub) == 1 and lo >= 1:
+                    name_set = _single_char_set(sub[0])
+            elif len(tree) == 1 and str(tree[0][0]) == "BRANCH":
+                alts = [list(a) for a in tree[0][1][1]]
+                if len(alts) == 2:
+                    for a, b in (alts, alts[::-1]):
+                        if len(a) == 1 and _single_char_set(a[0]) == signs and len(b) == 1 and str(b[0][0]) in ("MAX_REPEAT", "MIN_REPEAT"):
+                            sub = list(b[0][1][2])
+                            if len(sub) == 1:
+                                name_set = _single_char_set(sub[0])
+            if name_set is None:
+                raise AnalysisError("R14.5", f.where(c), f"tokeniser {pat!r} is not of the form sign + name-characters")
+            missing = sorted(set(_PRINTABLE) - signs - name_set)
+            if name_set & signs:
+                ctx.violated("R14.5", f.where(c), f"the name part of {pat!r} also matches an orientation sign: consecutive steps run together", key_of(f, f"path-token-signs:{pat}"))
+            elif missing:
+                ctx.violated("R14.5", f.where(c), f"the name part of {pat!r} does not accept {missing[:8]}: a node or contig name containing such a character (utg4.1, tig-7, h1#c4, chr6:1-5) is cut at it", key_of(f, f"path-token:{''.join(missing)[:20]}"))
+            else:
+                ctx.holds("R14.5", f.where(c), f"a step is an orientation sign followed by every character up to the next sign ({pat!r})")
+    ctx.require_count("R14.5", n, 5, "gaftools/", "places where a path is cut into steps (regular expressions over < and >)")
